@@ -162,8 +162,8 @@ COAP_API coap_cache_entry_t *coap_new_cache_entry(coap_session_t *session,
  * @param context     The context to use.
  * @param cache_entry The cache-entry to remove.
  */
-void coap_delete_cache_entry(coap_context_t *context,
-                             coap_cache_entry_t *cache_entry);
+COAP_API void coap_delete_cache_entry(coap_context_t *context,
+                                      coap_cache_entry_t *cache_entry);
 
 /**
  * Searches for a cache-entry identified by @p cache_key. This
